@@ -197,6 +197,21 @@ CLAIMED['C06'] = dict(
   design_ref='DESIGN.md section 3 C06',
   note='In-order exactly-once delivery of each fragment is delegated to the data link connection (C05). Trusted: SNEP 1.0 codes tabulated in the rule.',
   technique='fragment partition + handshake ordering by CFG dominance + header format agreement (ast)')
+CLAIMED['C07'] = dict(
+  category='other',
+  text='Decides the exception-escape and termination skeleton of robustness against peer bytes: an interprocedural may-raise analysis with one '
+       'allowed set per peer-input entry point (LLCP PDU/TLV decoders: pdu.DecodeError only; NFC-DEP frame and PDU decoders: ProtocolError / '
+       'TransmissionError only; dep Initiator/Target activate/exchange/deactivate, LogicalLinkController activate/exchange/dispatch/collect/run '
+       'loops, Type3TagEmulation.process_command, the SNEP and handover server threads, ContactlessFrontend.connect: their documented sets), fed '
+       'by explicit raises, re-raises, asserts, catalogued library calls and the implicit raise sites of the buffer rules (index, pop, fixed-arity '
+       'unpack, struct size on peer-controlled buffers without a dominating length guard or matching handler); no unbounded recursion on peer '
+       'controlled nesting; every peer-driven decoder loop strictly consumes the remaining size; fixed-size reads in the LLCP decoders lie inside '
+       'the checked window or are converted to DecodeError. Thread liveness after the input and blocking inside driver calls are not decided.',
+  design_ref='DESIGN.md section 3 C07',
+  note='Seven defects repaired (see known_findings.json, status fixed). Two known findings: SystemExit leaves connect() through the LLCP run '
+       'loops; unbounded AGF nesting recursion. Implicit exceptions outside the catalogue (TypeError from None/str mixing, MemoryError) are not '
+       'modelled; user callbacks are opaque.',
+  technique='interprocedural exception-escape analysis with assume/guarantee layers + buffer min-length dataflow + loop progress + call-graph cycle check (ast/CFG)')
 CLAIMED['C20'] = dict(
   category='other',
   text='Decides the control/data-flow skeleton of authentication: read_with_mac returns data only on the branch where the MAC over exactly that '
